@@ -1,7 +1,6 @@
 package directive
 
 import (
-	stdBytes "bytes"
 	"fmt"
 
 	"github.com/jsightapi/jsight-schema-go-library/bytes"
@@ -10,11 +9,21 @@ import (
 	"github.com/jsightapi/jsight-api-go-library/notation"
 )
 
+// unescapeParameter removes the quotes of a quoted parameter and the backslashes
+// escaping a quote or a backslash (the only escapes the scanner lets through).
+// It makes a single pass: unescaping twice would turn `\\\\` into one backslash and
+// `\\\"` into a bare quote.
 func unescapeParameter(b bytes.Bytes) bytes.Bytes {
-	c := b.Unquote()
-	if len(c) != 0 && len(c) != len(b) {
-		c = stdBytes.ReplaceAll(c, []byte(`\"`), []byte(`"`))
-		c = stdBytes.ReplaceAll(c, []byte(`\\`), []byte(`\`))
+	if !b.InQuotes() {
+		return b
+	}
+	last := len(b) - 1 // index of the closing quote
+	c := make(bytes.Bytes, 0, last)
+	for i := 1; i < last; i++ {
+		if b[i] == '\\' && i+1 < last && (b[i+1] == '\\' || b[i+1] == '"') {
+			i++
+		}
+		c = append(c, b[i])
 	}
 	return c
 }
